@@ -232,6 +232,18 @@ impl ExchangeId {
     /// Note also that if the uderlying session or exchange tracked by the Matter stack is dropped
     /// (say, because of lack of resources or a hard networking error), the method will return an error.
     async fn wait_tx<'a>(&self, matter: &'a Matter<'a>) -> Result<TxOutcome, Error> {
+        if self.retrans_delay_ms(matter)?.is_some() {
+            // The back-off runs from the moment the message has left for the network,
+            // not from the moment it was queued in the TX buffer (where it might stay
+            // for a while if the network is slow or busy sending something else)
+            matter
+                .transport
+                .get_if_tx(|packet| {
+                    packet.buf.is_empty() || self.with_state(matter, |_| Ok(())).is_err()
+                })
+                .await;
+        }
+
         if let Some(delay) = self.retrans_delay_ms(matter)? {
             let expired = unwrap!(Instant::now().checked_add(Duration::from_millis(delay)));
 
